@@ -143,6 +143,15 @@ Theorem C04_stale_leader_entry : forall view ci c,
 Proof. exact leader_entry_stale. Qed.
 Print Assumptions C04_stale_leader_entry.
 
+(** ALL inputs, any mix of entries: the whole leader pass (syncLeaderInfo) gives the same result as on
+    the report from which every entry with a version below the view's has been removed *)
+Theorem C04_leader_pass_ignores_stale : forall cis view,
+  sync_leader_info view cis =
+  sync_leader_info view
+    (filter (λ ci, match view !! si_shard ci with Some c => si_cci ci <? s_cci c | None => false end = false) cis).
+Proof. exact sync_leader_info_drop_stale. Qed.
+Print Assumptions C04_leader_pass_ignores_stale.
+
 (** reports consistent with a history never trip the consistency panics of syncShard, so the
     theorems above are not true "because the model stopped" *)
 Theorem C04_no_panic : forall (H : history), hist_ok H ->
@@ -154,6 +163,17 @@ Theorem C04_no_panic_step : forall (H : history), hist_ok H ->
   forall P d r, view_inv H (d_view d) -> report_ok H r -> db_step P d (CReport r) <> SDead.
 Proof. exact report_no_panic_inv. Qed.
 Print Assumptions C04_no_panic_step.
+
+(** report times (ALL inputs, one command): updateNodeTick touches only the record of the replica
+    that reports.  If no entry of the command names replica rid of shard s, the report time of that
+    member is what it was before (or 0 when the record was created by this very command) *)
+Theorem C04_tick_only_reporter : forall P d c d' s rid c1 n1,
+  next P d c = Some d' ->
+  (forall r ci, c = CReport r -> ci ∈ rp_infos r -> ~ (si_shard ci = s /\ si_replica ci = rid)) ->
+  d_view d' !! s = Some c1 -> s_reps c1 !! rid = Some n1 ->
+  r_tick n1 = 0 \/ exists c0 n0, d_view d !! s = Some c0 /\ s_reps c0 !! rid = Some n0 /\ r_tick n0 = r_tick n1.
+Proof. exact step_tick_only_reporter. Qed.
+Print Assumptions C04_tick_only_reporter.
 
 (** * Non-vacuity: a history satisfying the side conditions, a consistent trace with stale,
     duplicated, pending and incomplete entries, and what the model does on it *)
